@@ -99,7 +99,8 @@ static void bodyVoid(const Tok& a, int b)
 }
 
 static volatile int g_inPoolCtor = 0;
-int sched_clock_frozen() { return g_inPoolCtor || FP::_threadPoolLock != 0; }   // the only code run under the spin lock of startProc is `new ThreadPool`
+// lazily created pool: while startProc holds the spin lock and has not yet published the pool, nobody can be inside run(): a clock reading then is the constructor's
+int sched_clock_frozen() { return g_inPoolCtor || (FP::_threadPoolLock != 0 && FP::_threadPool == 0); }
 static Pool* curPool() { return g_pool ? g_pool : (Pool*)FP::_threadPool; }
 
 const char* sched_name(const void* addr, char* buf)
